@@ -35,8 +35,24 @@ def stream(ck, n, spawn, big=0, seed_shift=0, label=None):
     ck.seed += seed_shift
     reqs = ck.gen("proc", ["--n", n, "--spawn", spawn, "--dir", WORKDIR, "--big", big, "--nvh", os.path.join(WORKDIR, "nvh-child")])
     ck.seed -= seed_shift
-    res = ck.corr("proc", reqs, starts=STARTS, nvh_args=run_args(), label=label)
+    res = corr(ck, reqs, label)
     return reqs, res
+
+
+def corr(ck, reqs, label=None):
+    """ck.corr plus: after a few failing run/spawn requests the harness answers the remaining ones
+    `skipped` (a change that makes children hang would otherwise cost one timeout per sample); those
+    lines are no disagreements."""
+    before = len(ck.disagreements)
+    res = ck.corr("proc", reqs, starts=STARTS, nvh_args=run_args(), label=label)
+    skipped = sum(1 for a in res["impl_lines"] if a == "skipped")
+    if skipped:
+        kept = [d for d in ck.disagreements[before:] if d["impl"] != "skipped"]
+        ck.disagreements[before:] = kept
+        res["disagreements"] = sum(1 for a, b in zip(res["impl_lines"], res["model_lines"]) if a != b and a != "skipped")
+        res["skipped_after_failures"] = skipped
+        ck.count("spawn_requests_skipped_after_failures", skipped)
+    return res
 
 
 def corpus_requests(ck):
@@ -73,7 +89,9 @@ def run_locked(ck: Check):
                "texts with spaces, quotes, $, *, ;, newlines, empty, multi-byte, NUL, '=' in keys) validated under "
                "three limit settings each (all limits met; exactly one limit one below; each limit independently "
                "at -1/0/+1/far); plus spawn histories whose child is the harness itself reporting argv/env/cwd/"
-               "stdin/stdio. Non-trivial = a history in which a key is written twice, a validate is refused, or a "
+               "stdin/stdio, the calls laid out in the script straight-line, inside a jasi loop over arrays of the texts, "
+               "in a function mutating the captured command, or on a command kept in an array element and passed "
+               "through a function. Non-trivial = a history in which a key is written twice, a validate is refused, or a "
                "run/spawn request is answered; distinct by request text")
     os.makedirs(WORKDIR, exist_ok=True)
     ck.build_harness()
@@ -86,12 +104,12 @@ def run_locked(ck: Check):
     # corpus first
     creqs = corpus_requests(ck)
     if creqs:
-        res = ck.corr("proc", creqs, starts=STARTS, nvh_args=run_args(), label="proc-corpus")
+        res = corr(ck, creqs, "proc-corpus")
         classify(ck, creqs, res)
     if ck.tier == "quick":
-        n, spawn, big = 6000, 80, 0
+        n, spawn, big = 6000, 150, 0
     else:
-        n, spawn, big = 400000, 6000, 1
+        n, spawn, big = 400000, 8000, 1
     reqs, res = stream(ck, n, spawn, big)
     classify(ck, reqs, res)
     if ck.tier == "thorough":
@@ -135,6 +153,8 @@ def classify(ck, reqs, res):
             elif w in ("run", "spawn"):
                 ran = True
                 kind = a.split(" ", 1)[0]
+                if w == "run":
+                    ck.count("script_layout_" + (r.split()[2] if len(r.split()) > 2 else "flat"))
                 ck.count(f"{'run' if w == 'run' else 'api'}_{kind}" + ("_" + a.split()[1] if kind == "invalid" else ""))
                 if kind == "spawned":
                     ck.count("children_observed")
@@ -176,7 +196,7 @@ def exhaustive(ck):
                 rec(prefix + [op], depth - 1)
 
     rec([], 4)
-    res = ck.corr("proc", reqs, starts=STARTS, nvh_args=run_args(), label="proc-exhaustive-len4")
+    res = corr(ck, reqs, "proc-exhaustive-len4")
     ck.extra_cov["exhaustive_histories_len4_10ops"] = count
     classify(ck, reqs, res)
 
@@ -187,19 +207,29 @@ def fails_oracle(ck, hist):
     return b"ORACLE-FAIL" in p.stderr
 
 
-def shrink(ck, hist):
+def shrink(ck, hist, budget_s=90):
     """Greedy line removal (the `new` line, the three child-protocol arguments of a spawn history and
-    the last request are kept); a candidate is kept if the oracle still fails."""
-    best = list(hist)
+    the last request are kept); a candidate is kept if the oracle still fails. Earlier run/spawn
+    requests are dropped first (each costs a child run, or a whole timeout when children hang); the
+    whole thing is cut off after `budget_s` seconds."""
+    import time
+    t0 = time.time()
+    best = [r for r in hist[:-1] if r.split(" ", 1)[0] not in ("run", "spawn", "show", "validate")] + [hist[-1]]
+    if not fails_oracle(ck, best):
+        best = list(hist)
     keep_head = 1
-    if len(best) > 4 and best[1:3] == ["arg " + hexs("proc"), "arg " + hexs("child")]:
-        keep_head = 4
-    elif len(best) > 5 and best[2:4] == ["arg " + hexs("proc"), "arg " + hexs("child")]:
-        keep_head = 5
+    child_args = ["arg " + hexs("proc"), "arg " + hexs("child")]
+    for at in (1, 2):
+        if len(best) > at + 3 and best[at:at + 2] == child_args:
+            keep_head = at + 3
     changed = True
-    while changed:
+    while changed and time.time() - t0 < budget_s:
         changed = False
         for i in range(len(best) - 2, keep_head - 1, -1):
+            if time.time() - t0 >= budget_s:
+                break
+            if best[i].startswith("caps "):
+                continue
             cand = best[:i] + best[i + 1:]
             if fails_oracle(ck, cand):
                 best = cand
@@ -214,9 +244,11 @@ def involves_child(hist):
 def reproduces(ck, hist, times=3):
     """A failure that involves a real child process (OS, scheduling, the file system) is reported only
     if it shows on three consecutive re-runs (DESIGN.md 3.5a); builder/validate failures are
-    deterministic and taken at face value."""
+    deterministic and taken at face value. Only the last request of the history is re-run as a
+    run/spawn request (earlier ones are dropped: each may cost a timeout)."""
     if not involves_child(hist):
         return True
+    hist = [r for r in hist[:-1] if r.split(" ", 1)[0] not in ("run", "spawn")] + [hist[-1]]
     inp = ("\n".join(hist) + "\n").encode()
     for _ in range(times):
         impl = sh([ck.nvh(), "proc"] + list(run_args()), inp=inp)
@@ -226,42 +258,71 @@ def reproduces(ck, hist, times=3):
     return True
 
 
+def first_reproducible(ck, items, limit=6):
+    """The shortest failure that reproduces (at most `limit` candidates are tried); the number of
+    candidates that did not."""
+    dropped = 0
+    for f in sorted(items, key=lambda x: len(x["history"]))[:limit]:
+        if reproduces(ck, f["history"]):
+            return f, dropped
+        dropped += 1
+    return None, dropped
+
+
+def script_of(ck, hist):
+    """The NaijaScript program the harness renders for the last `run` request of the history."""
+    if not hist or not hist[-1].startswith("run"):
+        return None
+    p = sh([ck.nvh(), "proc", "render"], inp=("\n".join(hist) + "\n").encode())
+    return p.stdout.decode(errors="replace") if p.returncode == 0 else None
+
+
 def search(ck):
     """Something no longer checks: look for a concrete history on which the property itself fails on
     the implementation (shadow of the requests vs builder state / accepted spec / child's report;
     limits as a plain conjunction; refused => no child)."""
-    n_of, n_dis = len(ck.oracle_fails), len(ck.disagreements)
-    ck.oracle_fails = [f for f in ck.oracle_fails if reproduces(ck, f["history"])]
-    ck.disagreements = [d for d in ck.disagreements if reproduces(ck, d["history"])]
-    dropped = (n_of - len(ck.oracle_fails)) + (n_dis - len(ck.disagreements))
-    if dropped:
-        ck.notes.append(f"{dropped} failure(s) of histories that spawn a child did not reproduce on 3 consecutive "
-                        "re-runs (environment: e.g. the binary being rebuilt) and were dropped")
-        ck.count("transient_failures_dropped", dropped)
-    if not ck.is_broken():
+    found, dropped = first_reproducible(ck, ck.oracle_fails)
+    dis, dropped2 = (None, 0)
+    if found is None:
+        dis, dropped2 = first_reproducible(ck, ck.disagreements)
+    if dropped + dropped2:
+        ck.notes.append(f"{dropped + dropped2} failure(s) of histories that spawn a child did not reproduce on 3 "
+                        "consecutive re-runs (environment: e.g. the binary being rebuilt) and were dropped")
+        ck.count("transient_failures_dropped", dropped + dropped2)
+    if found is None and dis is None and not ck.broken:
+        # nothing reproducible: the failures seen were transient
+        ck.oracle_fails, ck.disagreements = [], []
         return
-    found = list(ck.oracle_fails)
-    if not found:
+    if found is None:
         budget, spawns = (20000, 200) if ck.tier == "quick" else (200000, 2000)
         for shift in (101, 202):
+            n0 = len(ck.oracle_fails)
             stream(ck, budget, spawns, 0, seed_shift=shift, label=f"proc-search+{shift}")
-            ck.oracle_fails = [f for f in ck.oracle_fails if reproduces(ck, f["history"])]
-            if ck.oracle_fails:
-                found = list(ck.oracle_fails)
+            found, _ = first_reproducible(ck, ck.oracle_fails[n0:])
+            if found:
                 break
     if found:
-        f = min(found, key=lambda x: len(x["history"]))
-        hist = shrink(ck, f["history"])
-        ck.report_violation({"kind": "impl-vs-oracle", "family": "proc", "what": f["what"], "requests": hist,
-                             "replay_cmd": "./check C15 --replay <this file>",
-                             "broken": ck.broken[:5], "disagreements": ck.disagreements[:3]})
+        hist = shrink(ck, found["history"])
+        rep = {"kind": "impl-vs-oracle", "family": "proc", "what": found["what"], "requests": hist,
+               "replay_cmd": "./check C15 --replay <this file>",
+               "broken": ck.broken[:5], "disagreements": ck.disagreements[:3]}
+        script = script_of(ck, hist)
+        if script:
+            rep["script"] = script
+            rep["script_note"] = ("the requests rendered as the NaijaScript program that was run through lexer, parser, "
+                                  "resolver and Runtime::new_with_host_policy; the program (argv[0]) is the harness "
+                                  "binary acting as echo child")
+        ck.report_violation(rep)
     else:
-        ck.report_violation({"kind": "tie-broken", "family": "proc",
-                             "what": "proof obligation, generated limits table or model/implementation "
-                                     "correspondence no longer checks; no history violating the property was found",
-                             "broken": ck.broken[:10], "disagreements": ck.disagreements[:5],
-                             "requests": (ck.disagreements[0]["history"] if ck.disagreements else [])},
-                            no_input_found=True)
+        hist = dis["history"] if dis else (ck.disagreements[0]["history"] if ck.disagreements else [])
+        rep = {"kind": "tie-broken", "family": "proc",
+               "what": "proof obligation, generated limits table or model/implementation "
+                       "correspondence no longer checks; no history violating the property was found",
+               "broken": ck.broken[:10], "disagreements": ck.disagreements[:5], "requests": hist}
+        script = script_of(ck, hist)
+        if script:
+            rep["script"] = script
+        ck.report_violation(rep, no_input_found=True)
 
 
 def replay(ck, data):
@@ -278,4 +339,8 @@ def replay(ck, data):
     for i, r in enumerate(reqs):
         print(f"{r} | {il[i] if i < len(il) else '?'} | {ml[i] if i < len(ml) else '?'}")
     print(impl.stderr.decode())
+    script = script_of(ck, reqs)
+    if script:
+        print("--- script of the last run request ---")
+        print(script)
     return 1 if b"ORACLE-FAIL" in impl.stderr or il != ml else 0
